@@ -127,7 +127,11 @@ impl<Job> JobBroker<Job> {
                     std::thread::current().name().unwrap_or_default(),
                     market.open_count
                 );
+                #[cfg(getong_stateright_verif)]
+                crate::verif::market_event(crate::verif::MarketEvent::Park);
                 self.has_new_jobs.wait(&mut market);
+                #[cfg(getong_stateright_verif)]
+                crate::verif::market_event(crate::verif::MarketEvent::Wake);
                 market.open_count += 1;
             }
         }
